@@ -1019,6 +1019,10 @@ def translate(text, roots=None, stubs=()):
         if n in ('llvm.global_ctors', 'llvm.used', 'llvm.compiler.used', 'llvm.global_dtors'):
             continue
         ct = mod.ctype(g['ty']); c = csan(n)
+        if g['ext'] and n.startswith('_ZTVN10__cxxabiv1'):
+            # vtables of the ABI's type_info classes: only their address (+2 slots) is taken
+            gdecl.append('extern %s %s[8];' % (ct, c)); gdef.append('%s %s[8]; /* external ABI vtable */' % (ct, c))
+            continue
         gdecl.append('extern %s %s;' % (ct, c))
         if g['ext']:
             if n in RT_PROVIDED_GLOBALS: pass
